@@ -255,6 +255,33 @@ Proof.
     eapply IH; [|eassumption|exact Hr]. eapply pstep_ok; eassumption.
 Qed.
 
+(* a history of valid calls never trips the pool's check *)
+Lemma pstep_total s live o : pinv s live -> pop_usize o -> exists st', pstep c (s, live) o = Some st'.
+Proof.
+  intros Hi Hu. destruct o as [n | i | i n | | i v]; cbn [pstep].
+  - destruct (pool_alloc c s n). eexists. reflexivity.
+  - destruct (nth_error live i) as [b|] eqn:Hn; [|eexists; reflexivity].
+    destruct (pool_dealloc_ok s live i b Hi Hn) as (s1 & -> & _). eexists. reflexivity.
+  - destruct (nth_error live i) as [b|] eqn:Hn; [|eexists; reflexivity].
+    destruct (pool_dealloc_ok s live i b Hi Hn) as (s1 & Hde & _).
+    unfold pool_realloc. destruct (b_addr b =? 0).
+    + destruct (pool_alloc c s n) as [s2 q]. destruct (n =? 0); [|destruct (q =? 0)]; eexists; reflexivity.
+    + destruct (n =? 0) eqn:E0; [rewrite Hde; eexists; reflexivity|].
+      destruct (n >? p_chunk c); cbn; [eexists; reflexivity|].
+      destruct (b_addr b =? 0); eexists; reflexivity.
+  - eexists. reflexivity.
+  - destruct (nth_error live i); eexists; reflexivity.
+Qed.
+
+Lemma prun_total ops : forall s live, pinv s live -> Forall pop_usize ops ->
+  exists s' live', prun c (s, live) ops = Some (s', live') /\ pinv s' live'.
+Proof.
+  induction ops as [|o r IH]; intros s live Hi Hu; cbn [prun].
+  - eexists. eexists. split; [reflexivity | exact Hi].
+  - inversion Hu; subst. destruct (pstep_total s live o Hi H1) as ([s1 l1] & E). rewrite E.
+    apply IH; [|assumption]. eapply pstep_ok; eassumption.
+Qed.
+
 Lemma pinv_good s live : pinv s live -> pool_good c live.
 Proof.
   intros [(_ & _ & ->) | (Hin & Hsz & fl & Hfl & Hperm)].
@@ -281,6 +308,14 @@ Proof.
   { eapply prun_ok; [exact Hc | | exact Hu | exact Hr]. left. cbn. auto. }
   split; [eapply pinv_good; eassumption|].
   intros Hin. destruct Hi as [(Hf & _) | (_ & _ & H)]; [congruence | exact H].
+Qed.
+
+Theorem pool_total_proof : forall c ops, pcfg_ok c -> Forall pop_usize ops ->
+  exists s live, prun c (pool_init, []) ops = Some (s, live) /\ pool_good c live.
+Proof.
+  intros c ops Hc Hu.
+  destruct (prun_total c Hc ops pool_init [] ltac:(left; cbn; auto) Hu) as (s & live & Hr & Hi).
+  exists s, live. split; [exact Hr | eapply pinv_good; eassumption].
 Qed.
 
 Definition pwit_cfg : pcfg := mkpcfg 4096 8 4.
